@@ -38,6 +38,19 @@ CLAIMED = {
              'raising single-element mutator leaves the state equal (extensional maps: equal lookups). Lane: error-directed '
              'histories, full snapshot before/after every raising call.',
         note=_COMMON_NOTE),
+    'C06': dict(
+        technique='Lean 4 proof (location-labelled object model with a monotone allocator: every export / derived graph is '
+                  'allocated fresh and separated from the graph heap) with differential correspondence on id()-sharing '
+                  'matrices of the real objects',
+        text='Theorems: for every export and derive recipe transcribed from the code (ref / shallow / deep per cell) the result '
+             'lies in the interval of labels allocated by the call and is separated from the graph heap and from every older '
+             'export, in any order of first / later calls; metadata cells of distinct nodes and edges of a derived graph are '
+             'pairwise separated; the source is unchanged. to_dict is shallow: proved separated only for flat metadata '
+             '(to_dict_separated_partial), the full statement is refuted by a decided counter-example and is the known '
+             'finding D9. Lane: graphs with nested mutable metadata, every export API first / again / after mutating the '
+             'previous export, sharing matrix of the real objects vs the prediction, deep-mutation oracle.',
+        note=_COMMON_NOTE + 'networkx graphs and numpy arrays are one opaque cell; metadata whose sub-objects are shared between '
+                            'containers is outside the model; partial for to_dict (D9, documented shallow copy).'),
     'C10': dict(
         technique='Lean 4 proof (each query characterised against the transitive closure / simple paths / induced sub-graphs '
                   'for every DAG) with differential correspondence against networkx-backed answers, exhaustive on small DAGs',
@@ -69,6 +82,17 @@ CLAIMED = {
              'satisfy parse(identifier) = (variable, lag) after every history (WF.tsName). The pattern text is re-extracted '
              'from utils.py each run; the Unicode digit table is regenerated from the running interpreter.',
         note=_COMMON_NOTE + 'CPython\'s 4300-digit int limit is not modelled.'),
+    'C13': dict(
+        technique='Lean 4 proof (time clause of the state invariant preserved by every mutator; lexicographic Kahn keyed by lag '
+                  'yields a time-sorted linear extension; filtered enumeration = time-sorted linear extensions) with '
+                  'differential correspondence and brute-force oracle',
+        text='Theorems: after any history every edge of a time-series graph is stored earlier -> later (so no directed edge '
+             'points backwards in time); add_edge / add_time_edge / change_edge_type / replace_edge / replace_node that would '
+             'store a directed edge against time return ValueError (replace_node: exactly then); Kahn-by-lag returns a valid '
+             'time-sorted order on every DAG whose edges respect time; return_all = exactly the time-sorted linear extensions '
+             '(incl. the empty graph after the D14 repair). Lane: histories aimed at time violations, plain graphs with '
+             'violating edges converted, random lagged DAGs.',
+        note=_COMMON_NOTE + 'networkx tie-breaking is not modelled: the default order is validated by predicate.'),
     'C20': dict(
         technique='Lean 4 proof (Markov boundary shields and is minimal, against the same d-separation definition as C11; '
                   'collider characterisation) with differential correspondence, exhaustive on small graphs',
@@ -81,7 +105,7 @@ CLAIMED = {
 }
 
 _P = 'check under construction in this round (model/lane/theorems not yet integrated); not claimed until its central theorem is proved and its lane is clean'
-NOT_CLAIMED = {k: _P for k in ['C04', 'C05', 'C06', 'C07', 'C08', 'C09', 'C13', 'C14', 'C15', 'C16', 'C17', 'C18',
+NOT_CLAIMED = {k: _P for k in ['C04', 'C05', 'C07', 'C08', 'C09', 'C14', 'C15', 'C16', 'C17', 'C18',
                                'C19']}
 
 try:
